@@ -33,3 +33,63 @@ def rect(rng, big=False, maxs=40):
 
 def J(*xs):
     return ' '.join(str(x) for x in xs)
+
+
+# ---- zoo cases (harness/src/zoo.rs) ------------------------------------------------------------
+FAMILIES = ['rect', 'circle', 'ellipse', 'rrect', 'tri', 'line', 'poly', 'arc', 'sector', 'image', 'subimage', 'text']
+
+
+def zstyle(rng, maxw=12):
+    k = rng.random()
+    w = 0 if k < 0.1 else 1 if k < 0.3 else rng.randrange(0, maxw + 1)
+    return J('S', rng.randrange(2), rng.randrange(2), w, rng.randrange(3))
+
+
+def zoo_case(rng, fam=None, c=lambda rng: rng.randrange(-30, 31), e=lambda rng: rng.choice([0, 1, 2, 3]) if rng.random() < 0.25 else rng.randrange(0, 32), maxw=12, ang=None, absolute=False):
+    """one zoo case line (without suite name); c = coordinate sampler, e = extent sampler"""
+    fam = fam or rng.choice(FAMILIES)
+    ang = ang or (lambda rng: rng.choice([0, 30, 45, 90, 180, 270, 360, -90, -360, 400, -720]) if rng.random() < 0.4 else rng.randrange(-400, 401))
+    if fam == 'rect' or fam == 'ellipse':
+        g = J(c(rng), c(rng), e(rng), e(rng))
+    elif fam == 'circle':
+        g = J(c(rng), c(rng), e(rng))
+    elif fam == 'rrect':
+        g = J(c(rng), c(rng), e(rng), e(rng), *[e(rng) if rng.random() < 0.8 else 0 for _ in range(8)])
+    elif fam == 'tri' and absolute:
+        g = J(c(rng), c(rng), c(rng), c(rng), c(rng), c(rng))
+    elif fam == 'line' and absolute:
+        g = J(c(rng), c(rng), c(rng), c(rng))
+    elif fam == 'poly' and absolute:
+        n = rng.choice([0, 1, 2, 3, 3, 4, 5, 6])
+        pts = [(c(rng) // 2, c(rng) // 2) for _ in range(n)]
+        g = J(c(rng) // 2 if rng.random() < 0.5 else 0, c(rng) // 2 if rng.random() < 0.5 else 0, n, *[v for p in pts for v in p])
+    elif fam == 'tri':
+        x, y = c(rng), c(rng)
+        g = J(x, y, x + e(rng) * rng.choice([-1, 1]), y + e(rng) * rng.choice([-1, 1]), x + e(rng) * rng.choice([-1, 1]), y + e(rng) * rng.choice([-1, 1]))
+    elif fam == 'line':
+        x, y = c(rng), c(rng)
+        g = J(x, y, x + e(rng) * rng.choice([-1, 1]), y + e(rng) * rng.choice([-1, 1]))
+    elif fam == 'poly':
+        n = rng.choice([0, 1, 2, 3, 3, 4, 5, 6])
+        x, y = c(rng), c(rng)
+        pts = []
+        for _ in range(n):
+            if pts and rng.random() < 0.12:
+                pts.append(rng.choice(pts))
+            else:
+                pts.append((x + e(rng) * rng.choice([-1, 1]), y + e(rng) * rng.choice([-1, 1])))
+        g = J(c(rng) if rng.random() < 0.5 else 0, c(rng) if rng.random() < 0.5 else 0, n, *[v for p in pts for v in p])
+    elif fam in ('arc', 'sector'):
+        g = J(c(rng), c(rng), e(rng), ang(rng), ang(rng))
+    elif fam == 'image':
+        return J('image', c(rng), c(rng), min(e(rng), 40), min(e(rng), 40), rng.randrange(1000))
+    elif fam == 'subimage':
+        w, h = min(e(rng), 40), min(e(rng), 40)
+        return J('subimage', c(rng), c(rng), w, h, rng.randrange(1000), rng.randrange(-3, w + 3), rng.randrange(-3, h + 3), rng.randrange(0, w + 4), rng.randrange(0, h + 4))
+    elif fam == 'text':
+        lhk = rng.randrange(2)
+        lhv = rng.choice([0, 1, 8, 10, 20, 30]) if lhk == 0 else rng.choice([0, 50, 100, 150, 200, 400])
+        return J('text', c(rng), c(rng), rng.randrange(8), rng.randrange(3), rng.randrange(4), lhk, lhv, rng.randrange(16), rng.randrange(12))
+    else:
+        raise ValueError(fam)
+    return fam + ' ' + g + ' ' + zstyle(rng, maxw)
